@@ -530,7 +530,7 @@ func (s *e2eSite) lookup(url string) resource {
 		return resource{status: 404, ctype: "text/html", body: []byte("<html><body>not found <img src=\"/never.png\"></body></html>")}
 	case c == 6:
 		res.failFirst = 1 + r.Intn(2)
-	case c == 8 && !isSeed:
+	case (c == 8 || ((s.mode == "hosts" || s.mode == "bodies") && c >= 20)) && !isSeed:
 		res.truncate = true // the body is cut mid-stream: ProcessBody fails, this URL fails for good
 	case c == 7:
 		return resource{status: 403, ctype: "text/html", body: []byte("<html>challenge</html>"), cfMitigate: true}
@@ -592,6 +592,13 @@ func (s *e2eSite) lookup(url string) resource {
 	}
 	res.gzip = r.Chance(25)
 	res.chunked = r.Chance(35)
+	if res.truncate && (s.mode == "hosts" || s.mode == "bodies") && r.Chance(70) {
+		// a transfer that breaks mid-stream on a body beyond the 2 MiB spool threshold of a type that is kept
+		// for post-processing: the spooled temp file must not be left behind
+		res.ctype = "text/css"
+		res.body = []byte("body{color:red}\n/*" + strings.Repeat("x", 2*(2097152+5000)) + "*/")
+		res.links, res.gzip, res.chunked = nil, false, false
+	}
 	return res
 }
 
